@@ -571,9 +571,13 @@ LinesWide == {KV(k, IntV(i)) : k \in {A, B}, i \in 1..40} \cup {KV(AB, IntV(i)) 
 \* ---- scale (configuration scale): one input of 1 400 lines over 1 301 distinct keys in scrambled order (about a hundred of them recur far apart), values 0..6 --
 \* more groups, distinct rows and distinct values than any in-memory shortcut of the code is sized for (tens, hundreds, 1 024 ...); the statements keep the
 \* first rows of such a result (LIMIT with and without DISTINCT / HAVING), count and deduplicate them
-BigKey(i) == TextV(IntText((i * 37) % 1301))
+Letters(n) == LET t == IntText(n) IN [j \in 1..Len(t) |-> t[j] + 49]          \* the digits 0..9 written as a..j (the table's key pattern is [a-z]+)
+BigKey(i) == TextV(Letters((i * 37) % 1301))
 BigInput == [i \in 1..1400 |-> KV(BigKey(i), IntV(i % 7))]
 BigInputs == {<<BigInput>>}
+\* the same shape at a size TLC evaluates in about a minute (configuration scale-300): 300 lines over 271 keys, about thirty of them recurring
+MidKey(i) == TextV(Letters((i * 37) % 271))
+MidInputs == {<<[i \in 1..300 |-> KV(MidKey(i), IntV(i % 7))]>>}
 ScaleMenu == {
   Agg(<<ItE("max", V, "hi"), CountStar>>, <<K>>, NoE, NoH, TRUE, 2, "none"),          \* rows (6, 1), (6, 2): the first rows of the full result come from groups far apart
   Agg(<<ItE("max", V, "hi"), CountStar>>, <<K>>, NoE, NoH, TRUE, 9, "none"),
@@ -581,7 +585,7 @@ ScaleMenu == {
   Agg(<<KeyK, SumV>>, <<K>>, NoE, HAgg(CountStar, ">=", IntV(2)), FALSE, 3, "none"),
   Agg(<<KeyK, CountStar>>, <<K>>, NoE, NoH, FALSE, NoLimit, "none"),
   Agg(<<ItC("count_distinct", "k", "d"), ItC("count_distinct", "v", "dv"), CountStar>>, <<>>, NoE, NoH, FALSE, NoLimit, "none"),
-  Agg(<<PctIt(1, 2), PctIt(999, 1000)>>, <<>>, NoE, NoH, FALSE, NoLimit, "none"),
+  Agg(<<PctIt(1, 2), [PctIt(999, 1000) EXCEPT !.as = "p999"]>>, <<>>, NoE, NoH, FALSE, NoLimit, "none"),
   Sel(<<P(K, "")>>, NoE, TRUE, NoLimit, "none"),
   Sel(<<P(K, "")>>, NoE, TRUE, 1250, "none"),
   Sel(<<P(V, "")>>, NoE, TRUE, 7, "none"),
